@@ -1,0 +1,145 @@
+//go:build verif
+
+package immutable
+
+import (
+	"fmt"
+	"math/bits"
+
+	"github.com/csgura/fp"
+)
+
+// Verification-only (build tag verif) structural walker of the HAMT.
+
+// VerifCensus counts the nodes of each kind reachable from the root.
+type VerifCensus struct {
+	Array, Bitmap, HashArray, Value, Collision int
+	MaxDepth                                   int
+	Entries                                    int
+}
+
+// VerifCheck walks the trie behind base and checks its structural invariants.
+// ok is false if base is not backed by this package's HAMT.
+func VerifCheck[K, V any](base fp.MapBase[K, V]) (c VerifCensus, ok bool, err error) {
+	m, isHamt := base.(*hamt[K, V])
+	if !isHamt {
+		return c, false, nil
+	}
+	if m.root == nil {
+		if m.size != 0 {
+			return c, true, fmt.Errorf("nil root but size %d", m.size)
+		}
+		return c, true, nil
+	}
+	err = verifWalk(m.root, 0, 0, 0, m.hasher, &c, true)
+	if err == nil && c.Entries != m.size {
+		err = fmt.Errorf("size field is %d but %d entries are reachable", m.size, c.Entries)
+	}
+	return c, true, err
+}
+
+// VerifCheckSet does the same for a set built by this package.
+func VerifCheckSet[T any](s fp.SetMinimal[T]) (c VerifCensus, ok bool, err error) {
+	st, isSet := s.(set[T])
+	if !isSet {
+		return c, false, nil
+	}
+	return VerifCheck[T, bool](st.m)
+}
+
+func verifWalk[K, V any](n mapNode[K, V], shift uint, prefix uint32, depth int, h fp.Hashable[K], c *VerifCensus, isRoot bool) error {
+	if depth > c.MaxDepth {
+		c.MaxDepth = depth
+	}
+	mask := uint32(0)
+	if shift >= 32 {
+		mask = ^uint32(0)
+	} else {
+		mask = (uint32(1) << shift) - 1
+	}
+	onPath := func(hash uint32) bool { return hash&mask == prefix&mask }
+	switch node := n.(type) {
+	case nil:
+		return fmt.Errorf("nil child at depth %d", depth)
+	case *mapArrayNode[K, V]:
+		c.Array++
+		if !isRoot {
+			return fmt.Errorf("array node below the root (depth %d)", depth)
+		}
+		if len(node.entries) == 0 || len(node.entries) > maxArrayMapSize {
+			return fmt.Errorf("array node with %d entries", len(node.entries))
+		}
+		for i := range node.entries {
+			for j := 0; j < i; j++ {
+				if h.Eqv(node.entries[i].key, node.entries[j].key) {
+					return fmt.Errorf("array node holds key %v twice", node.entries[i].key)
+				}
+			}
+		}
+		c.Entries += len(node.entries)
+	case *mapBitmapIndexedNode[K, V]:
+		c.Bitmap++
+		if bits.OnesCount32(node.bitmap) != len(node.nodes) {
+			return fmt.Errorf("bitmap node: popcount(%032b)=%d but %d children", node.bitmap, bits.OnesCount32(node.bitmap), len(node.nodes))
+		}
+		if len(node.nodes) == 0 {
+			return fmt.Errorf("empty bitmap node at depth %d", depth)
+		}
+		idx := 0
+		for frag := uint32(0); frag < mapNodeSize; frag++ {
+			if node.bitmap&(uint32(1)<<frag) == 0 {
+				continue
+			}
+			if err := verifWalk(node.nodes[idx], shift+mapNodeBits, prefix|frag<<shift, depth+1, h, c, false); err != nil {
+				return err
+			}
+			idx++
+		}
+	case *mapHashArrayNode[K, V]:
+		c.HashArray++
+		cnt := uint(0)
+		for frag, child := range node.nodes {
+			if child == nil {
+				continue
+			}
+			cnt++
+			if err := verifWalk(child, shift+mapNodeBits, prefix|uint32(frag)<<shift, depth+1, h, c, false); err != nil {
+				return err
+			}
+		}
+		if cnt != node.count {
+			return fmt.Errorf("hash-array node: count field %d but %d children", node.count, cnt)
+		}
+	case *mapValueNode[K, V]:
+		c.Value++
+		c.Entries++
+		if node.keyHash != h.Hash(node.key) {
+			return fmt.Errorf("value node: stored hash %d != Hash(%v)=%d", node.keyHash, node.key, h.Hash(node.key))
+		}
+		if !onPath(node.keyHash) {
+			return fmt.Errorf("value node for key %v (hash %#x) sits on path %#x (shift %d)", node.key, node.keyHash, prefix, shift)
+		}
+	case *mapHashCollisionNode[K, V]:
+		c.Collision++
+		c.Entries += len(node.entries)
+		if len(node.entries) < 2 {
+			return fmt.Errorf("collision node with %d entries", len(node.entries))
+		}
+		if !onPath(node.keyHash) {
+			return fmt.Errorf("collision node (hash %#x) sits on path %#x (shift %d)", node.keyHash, prefix, shift)
+		}
+		for i := range node.entries {
+			if h.Hash(node.entries[i].key) != node.keyHash {
+				return fmt.Errorf("collision node: key %v has hash %d, node hash %d", node.entries[i].key, h.Hash(node.entries[i].key), node.keyHash)
+			}
+			for j := 0; j < i; j++ {
+				if h.Eqv(node.entries[i].key, node.entries[j].key) {
+					return fmt.Errorf("collision node holds key %v twice", node.entries[i].key)
+				}
+			}
+		}
+	default:
+		return fmt.Errorf("unknown node type %T", n)
+	}
+	return nil
+}
